@@ -166,6 +166,13 @@ func GenRequests(g *tape.Stream, fg *tape.Stream, s *Setup, p *Profile) [][]*Req
 						q.Progs[pos] = append(pr, q.Progs[pos][at:]...)
 					}
 				}
+				if fg.Chance(p.HookPanicPm) {
+					pos := fg.Intn(maxChain)
+					at := fg.Intn(len(q.Progs[pos]) + 1)
+					pr := append([]Act{}, q.Progs[pos][:at]...)
+					pr = append(pr, Act{Op: OpBefore, A: -1}, Act{Op: OpWrite, A: 5})
+					q.Progs[pos] = append(pr, q.Progs[pos][at:]...)
+				}
 				if fg.Chance(p.WFaultPm) {
 					q.WPlan = append(q.WPlan, WFault{At: fg.Intn(3), Kind: 1 + fg.Intn(2), Keep: fg.Intn(6)})
 				}
